@@ -181,11 +181,11 @@ def run(chk, prog):
                 k_ = (e["var"], e["method"], n["id"])
                 res[k_] = res.get(k_, True) and (("grid_t1", "_projection", 0) in st)
         return res, cnt
-    res2, n2 = loop_head_reads(mm.case_split())
+    res2, n2 = loop_head_reads(mm.case_split(loop_continues=True))
     if not all(res2.values()):
         # a reader that looks stale when only the null/non-null cases are told apart may sit under the same sign condition as the refresh
         # (`if (r > 0) refresh(); ... if (r > 0) read();`): decide again with the sign of main's const integers fixed per case
-        res2, _ = loop_head_reads(mm.case_split(refine=True))
+        res2, _ = loop_head_reads(mm.case_split(refine=True, loop_continues=True))
     byid = {y["id"]: y for y in A.walk(loop)}
     for (var_, meth_, nid_), ok in sorted(res2.items()):
         key = "%s.%s:xprojection-at-loop-head:%s" % (var_, meth_, ok)
